@@ -77,36 +77,58 @@ Inductive req_out :=
 Definition set_state (d : dev) (s : dstate) : dev :=
   {| d_kr := d_kr d; d_kd := d_kd d; d_send := d_send d; d_recv := d_recv d; d_state := s |}.
 
-Definition dev_handle_request (d : dev) (w : wire) : dev * req_out :=
+Definition finalize (p : prepared) : response :=
+  {| rs_status := pr_status p; rs_docs := pr_signed p; rs_doc_errors := pr_doc_errors p |}.
+
+(* emission: what was encrypted, under which key and IV *)
+Record emission := { em_role : role; em_key : N; em_iv : bytes; em_plain : plain }.
+
+(* SessionManager::finalize_if_complete: a prepared response with no document left to sign is
+   encoded, encrypted under sk_device with the next device IV, and becomes ReadyToRespond *)
+Definition dev_finalize (d : dev) : dev * list emission :=
+  match d_state d with
+  | Signing p =>
+    match pr_prepared p with
+    | [] =>
+      let '(ctr, nonce) := next_iv Device (d_send d) in
+      let pl := PResponse (finalize p) in
+      ({| d_kr := d_kr d; d_kd := d_kd d; d_send := ctr; d_recv := d_recv d;
+          d_state := Ready (WData (Enc (d_kd d) nonce pl)) |},
+       [{| em_role := Device; em_key := d_kd d; em_iv := nonce; em_plain := pl |}])
+    | _ => (d, [])
+    end
+  | _ => (d, [])
+  end.
+
+Definition dev_handle_request (d : dev) (w : wire) : dev * req_out * list emission :=
   match w with
-  | WGarbage => (d, RoParsingError)
-  | WNoData => (d, RoParsingError)
+  | WGarbage => (d, RoParsingError, [])
+  | WNoData => (d, RoParsingError, [])
   | WData c =>
     let '(ctr, nonce) := next_iv Reader (d_recv d) in
     let d' := {| d_kr := d_kr d; d_kd := d_kd d; d_send := d_send d; d_recv := ctr; d_state := d_state d |} in
     match decrypt (d_kr d) nonce c with
-    | None => (d', RoDecryptionError)
-    | Some (PRequest id) => (d', RoRequest id)
-    | Some PNotCbor => (set_state d' (Signing (empty_prepared status_cbor_decoding)), RoEmpty)
-    | Some _ => (set_state d' (Signing (empty_prepared status_cbor_validation)), RoEmpty)
+    | None => (d', RoDecryptionError, [])
+    | Some (PRequest id) => (d', RoRequest id, [])
+    | Some PNotCbor =>
+      let '(d'', em) := dev_finalize (set_state d' (Signing (empty_prepared status_cbor_decoding))) in
+      (d'', RoEmpty, em)
+    | Some _ =>
+      let '(d'', em) := dev_finalize (set_state d' (Signing (empty_prepared status_cbor_validation))) in
+      (d'', RoEmpty, em)
     end
   end.
 
 (* SessionManager::prepare_response: whatever the state was, it becomes Signing *)
-Definition dev_prepare (d : dev) (docs : list pdoc) (doc_errors : N) : dev :=
-  set_state d (Signing {| pr_prepared := docs; pr_signed := []; pr_doc_errors := doc_errors; pr_status := status_ok |}).
+Definition dev_prepare (d : dev) (docs : list pdoc) (doc_errors : N) : dev * list emission :=
+  dev_finalize
+    (set_state d (Signing {| pr_prepared := docs; pr_signed := []; pr_doc_errors := doc_errors; pr_status := status_ok |})).
 
 Definition dev_next_payload (d : dev) : option pdoc :=
   match d_state d with
   | Signing p => last_opt (pr_prepared p)
   | _ => None
   end.
-
-Definition finalize (p : prepared) : response :=
-  {| rs_status := pr_status p; rs_docs := pr_signed p; rs_doc_errors := pr_doc_errors p |}.
-
-(* emission: what was encrypted, under which key and IV *)
-Record emission := { em_role : role; em_key : N; em_iv : bytes; em_plain : plain }.
 
 Definition dev_submit (d : dev) (sg : bytes) : dev * list emission :=
   match d_state d with
@@ -117,15 +139,7 @@ Definition dev_submit (d : dev) (sg : bytes) : dev * list emission :=
                    pr_doc_errors := pr_doc_errors p; pr_status := pr_status p |}
               | None => p
               end in
-    match pr_prepared p' with
-    | [] =>
-      let '(ctr, nonce) := next_iv Device (d_send d) in
-      let pl := PResponse (finalize p') in
-      ({| d_kr := d_kr d; d_kd := d_kd d; d_send := ctr; d_recv := d_recv d;
-          d_state := Ready (WData (Enc (d_kd d) nonce pl)) |},
-       [{| em_role := Device; em_key := d_kd d; em_iv := nonce; em_plain := pl |}])
-    | _ => (set_state d (Signing p'), [])
-    end
+    dev_finalize (set_state d (Signing p'))
   | _ => (d, [])
   end.
 
@@ -205,10 +219,11 @@ Definition step (s : sys) (o : op) : sys * out * list emission :=
     let '(r', w, em) := rdr_new_request (s_rdr s) id in
     ({| s_dev := s_dev s; s_rdr := r' |}, OutWire w, em)
   | OHandleRequest w =>
-    let '(d', ro) := dev_handle_request (s_dev s) w in
-    ({| s_dev := d'; s_rdr := s_rdr s |}, OutReq ro, [])
+    let '(d', ro, em) := dev_handle_request (s_dev s) w in
+    ({| s_dev := d'; s_rdr := s_rdr s |}, OutReq ro, em)
   | OPrepare docs errs =>
-    ({| s_dev := dev_prepare (s_dev s) docs errs; s_rdr := s_rdr s |}, OutUnit, [])
+    let '(d', em) := dev_prepare (s_dev s) docs errs in
+    ({| s_dev := d'; s_rdr := s_rdr s |}, OutUnit, em)
   | ONextPayload => (s, OutPayload (dev_next_payload (s_dev s)), [])
   | OSubmit sg =>
     let '(d', em) := dev_submit (s_dev s) sg in
